@@ -22,6 +22,30 @@ add("C02", "exploration",
     "Trusts the hand-written reference predicate (kit/refmatch.go) and the seeded generator's reach; filters are built as values, not parsed.",
     "DESIGN.md section 4, C02")
 
+add("C01", "exploration",
+    "runtime monitoring: reference-model oracle (independent NIP-01 canonicaliser + SHA-256 + independent BIP-340 verifier) over freshly signed hostile events, a tamper catalogue, a full BMP code-point sweep and wrong-canonicalisation forgeries; race detector/checkptr",
+    "Every generated event is signed with a real key and must be reported authentic; every alteration from a 25-entry catalogue and every forgery over a non-canonical serialisation must be reported not authentic; Serialize must equal the reference canonical bytes. Held on the events listed in the evidence (all BMP scalars swept each run), not a proof." + RACE,
+    "Trusts kit/canon.go and kit/bip340.go (self-tested on the official BIP-340 vectors at start-up; cross-checks every signed event in the thorough tier, 1/16 in quick) and btcec for *signing* only. The end-to-end gate behind Relay.ServeHTTP is exercised by C12.",
+    "DESIGN.md section 4, C01")
+
+add("C03", "exploration",
+    "runtime monitoring: query-specification oracle (tie-aware, with b-matching for limit cuts) over the observed retained set after every step of seeded insertion histories; access-path-flipped re-queries; race detector",
+    "After every insertion of every generated history the match-everything listing is taken as the specification state and a panel of filter lists is answered by the real store; each answer must be an allowed answer (order, no duplicates, exactly the limit newest per filter, merged). Each list is re-asked in a form that forces the other access path. Held on the histories/queries counted in the evidence." + RACE,
+    "Trusts kit/storespec.go CheckQuery and kit/refmatch.go; filters are built as values (non-nil empty tag maps, which the wire format cannot express, are not generated).",
+    "DESIGN.md section 4, C03")
+
+add("C04", "exploration",
+    "runtime monitoring: step-wise refinement of observed (state, Add, flag, state') transitions against the retention transition relation, plus invariants; race detector",
+    "Every step of every generated history is judged: the observed transition must be one the retention/deletion specification allows (sets of allowed successors at ties and evictions), and the global invariants (capacity, distinct ids, one version per address, no ephemeral event served, Len) must hold after it. Held on the steps counted per transition class in the evidence." + RACE,
+    "Trusts kit/storespec.go CheckCacheStep; addressable events without a d tag are judged only loosely (C05); self-referencing deletion requests are not constructible with real ids.",
+    "DESIGN.md section 4, C04")
+
+add("C05", "exploration",
+    "runtime monitoring: the C04 refinement engine driven by a multi-author, deletion-heavy generator with author-isolation classification; race detector",
+    "Histories of 2-4 authors with deletion requests in every arrival order; every step must be an allowed transition (a removal must be explained by the inserting author's own events or by eviction; suppressed events stay out while the request is retained; requests are served like regular events). Held on the steps counted in the evidence." + RACE,
+    "Same trusted base as C04; a-tag references are exercised on addressable kinds only (as the property's quantifier says).",
+    "DESIGN.md section 4, C05")
+
 NOT_YET = "check not built yet in this revision (work in progress; see DESIGN.md)"
 
 
